@@ -28,8 +28,8 @@ PROPERTIES = ["C15"]
 MANIFEST = {
     "C15": {
         "technique": "Lean 4 proof + tie by TRANSLATION (tools/gen_json_cxx.py: tokenizer + parser of a C++ subset + symbolic execution; on every run Json::stripComments, the string loop of readToken (escapes, \\u, surrogate pairs), the number block of readToken and skipSpace of the CURRENT Json.cpp are translated statement by statement into lean/Nstd/Generated/JsonCode.lean and PropsGen.lean proves the translated functions equal to the model functions on every state) + translator by execution (tools/gen_json.py regenerates the escape tables of the tokenizer and of appendEscapedString by executing the current Json.cpp on every byte value; model and theorems are stated over the generated tables, which depend on the content of the escape logic only, not on its shape). Lean 4 proof (total, memory-safe parser with in-text error positions; serialise-then-parse round trip by induction over value trees; stripComments = reference scanner) over an executable model of Json.cpp + differential correspondence model vs real Json.cpp (ASan/UBSan, exactly sized heap copies) + independent Python oracles (json.loads, comment scanner, serialiser)",
-        "text": "Third leg of round 7: translated_parser (Json::Private::parseValue with parseArray/parseObject executed in place, as written today, is the model's parseValue/arrLoop/objLoop for every budget and parser state; out-parameter Variant& = returned value, List::append = acc ++ [v], HashMap::append = mapAppend with the repeated-key rule, readToken() = St.next), translated_parse (translated tokenizer + translated parser = the model's parseRaw on every NUL-terminated buffer), translated_parse_total_safe and translated_roundtrip (parse_total / parse_no_oob / roundtrip restated over the code of today). parse into a Variant that already holds a value: ModelInto.parseInto, driven by the new op parseinto (harness, driver, generator, Python reference); parse_into_fresh, parse_into_array_appends. Second leg of round 7: translated_readToken (the WHOLE Json::Private::readToken of today - skipSpace executed in place, first-byte dispatch, String::compare for the literals, string loop, number block - is the model's readToken on every consistent position Pos buf line r for every budget >= |r|+2; nothing of the tokenizer is hand-translated any more), readStr_fuel_monotone (proved on the translated loop by a tactic that follows the generated tree), translated_syntaxError / translated_column (the backwards walk of syntaxError over the bytes in front of the cursor, written with a counter or with a second pointer, returns (pos.line, model column)), error_pos_exact (parse buf = err l c: there is a cursor p of the buffer with NUL-free text in front of it such that (l, c) is what the translated syntaxError computes for p and p is exactly one of two classes - ErrAt.tokenizer: the cursor where readToken started at a consistent position gives up; ErrAt.behindToken: a complete token that the grammar does not allow there was read, p is the cursor immediately behind it and l its line), tokenizer_error_cursor + string_error_cursor (the tokenizer gives up AT the first byte of a token that cannot start / a mismatching literal, inside a string literal AT the terminating NUL, AT the first non-hex byte of a \\u escape, or immediately BEHIND a high surrogate escape that is not followed by a low surrogate escape). Tie by translation (round 7): translated_stripComments / translated_strip_loops (the three loops of Json::stripComments as written today ARE the model's stripOuter/stripBlock/stripString, fuel for fuel, for every output-so-far and cursor), translated_string_loop (the string loop of readToken as written today - CR/CRLF/LF, escape switch, \\u + 4 hex digits, surrogate tests, second escape, pos -= 6, Unicode::append - IS the model's readStr for every budget, line, accumulator and cursor: same value, line count, cursor, failure position), translated_number_token (alphabet loop + isDouble + toInt64 + narrowing = numLoop then numVal), translated_skipSpace, readToken_via_translation (the model's readToken rewritten over the translated pieces; only the first-byte dispatch and the three literals stay hand-written). A change of one of these C++ bodies changes the generated definitions; if it computes something else the equality no longer checks (broken obligation, then the search for a failing input runs), anything outside the translated C++ subset is refused (broken tie). Kernel-checked theorems over ALL buffers / ALL value trees of the Lean model of Json.cpp: parse never runs out of its linear budget (parse_total) and never reads behind the end of a buffer that holds a NUL (parse_no_oob), for any size and nesting depth; every reported error is the (line, column) of an offset inside the text (error_pos_inside, error_pos_bounds); the result depends only on the bytes before the first NUL (parse_reads_only_cstr); for every tree of null/bool/int32/int64/NUL-free strings/lists/maps with distinct NUL-free keys, parse(toString v) succeeds with a tree equal to v under Variant::operator== (roundtrip; the only change is int64-that-fits-32-bits -> int); stripComments equals a four-mode byte-at-a-time reference on the C string of the buffer, keeps every CR/LF and only deletes bytes (strip_spec, strip_keeps_line_breaks, strip_sublist). RFC 8259: lean/Nstd/Json/Rfc.lean is a declarative grammar of the RFC over bytes (inductive predicates, imports nothing, not the parser model) with the syntax tree as attribute; toString_is_rfc8259: for every tree of the property the text of toString IS a JSON-text of that grammar; accepts_rfc: every JSON-text of the grammar whose tree has a meaning (RfcSem.interp: strings decoded per section 7 incl. surrogate pairs to the RFC 3629 UTF-8 specified for C18, objects via HashMap::append, arrays, literals) is parsed successfully to exactly that meaning, no bound on size/depth; the only texts of the grammar without a meaning are those with a high surrogate escape not followed by a low surrogate escape, which the code rejects (lone_high_surrogate_rejected). Numbers: number_token (which bytes form the token; double iff it contains '.'), number_token_value (the value of EVERY token without '.': optional minus, decimal value of the digits before the first non-digit, saturated at int64, stored as int iff it fits 32 bits), number_token_exp_ignored (1e5 is the int 1: deviation from the RFC meaning, witness in Props). unicode_escape_is_utf8 / surrogate_logic: the shifts/masks of the tokenizer and of Unicode::append are the D800..DBFF / DC00..DFFF ranges, the UTF-16 pair formula and RFC 3629 for all code points. Round trip a second time, through the RFC semantics: toString_rfc_meaning (interp (treeOf v) = some (norm v): a statement about the two specifications, the parser does not occur) composes with toString_is_rfc8259 and accepts_rfc into roundtrip_through_rfc, independently of the parser-model proof `roundtrip`. string_without_meaning_rejected / high_surrogate_then_non_low_rejected: on RFC strings the tokenizer succeeds exactly when decodeItems is defined. Superset in both directions: accepted_beyond_rfc proves for each relaxation (leading zeros, `-`, `1-2`, `1.2.3`, trailing commas in arrays and objects, a raw LF and an unknown escape in a string, VT/FF as white space, `1 2`, `[] ]`) that nstd accepts it AND that it is not a JSON-text of the grammar (rfc_necessary: a computable necessary condition of Rfc.Text proved by induction over the grammar, LemmasRfcNot.lean importing only the grammar); lone low surrogates and repeated names (first position/last value) are inside the grammar, witnesses given. stripComments: besides strip_spec, the declarative relation Stripped (plain bytes, string literals with `\\x` pairs verbatim, `//` to the kept CR/LF, `/* */` keeping only CR/LF, unterminated forms) is computed by stripComments for every text (strip_declarative); every RFC 8259 text is returned unchanged (strip_rfc_text_unchanged); strip_then_parse: if the text without its comments is a JSON-text with meaning v, parse(stripComments(t)) = v. The model is tied to the current Json.cpp on every run by executing identical op lines on both (all byte strings of length <=3 (thorough <=4, partly 5) over a 12..18-symbol alphabet for parse and strip, generated valid/lenient/erroneous documents, prefixes, mutations, token soup, type-directed value trees with quotes/backslashes/all control characters/UTF-8/non-BMP, toString of the uint/uint64/Array/double kinds, 1000-deep documents, watchdog; every parse op also runs Parser::parse(String), a long-lived reused Parser, both static Json::parse functions and compares result and Error text) and judged by oracles that do not go through the model; branch-hit counters of the tokenizer/parser constructs are in the evidence.",
-        "note": "Translated and proved equal to the model (not trusted): stripComments, the string block and the number block of readToken, skipSpace. Trusted there: the translator tools/gen_json_cxx.py itself (its reading of the C++ subset: const char* = suffix + static offset read through Cxx.rdS/rdR with the empty suffix = out of bounds, String locals and *(dest++) = x as byte lists, loops as fuel functions, counting loops unrolled, member functions of Json::Private inlined, a bool loop flag propagated as a constant; library calls mapped to model definitions: String::findOneOf = strpbrk, isDigit/isHexDigit/isSpace, append, clear, toInt64 = atoll, toDouble opaque, Unicode::append = utf8; ASSUMED: k.scanf(\"%x\", &w) on four checked hex digits returns 1 with their value, the failure branch is dropped) - its output is additionally exercised because the driver's model functions are proved equal to it. Since the second leg also translated: the whole readToken (String::compare = litMatch) and syntaxError (a cursor known by the bytes in front of it; `start` = where that list ends). Since the third leg also translated: parseValue/parseArray/parseObject (assumed there: the Variant handed in is fresh - the other case is ModelInto.parseInto, hand-written and tied by the op parseinto; readToken() is taken as St.next, justified by translated_readToken). Still hand-translated and only tied by the differential run: the three statements of Private::parse (glue), appendVariant/appendEscapedString (escape tables by execution), Private::parse, the API wrappers. A harmless rewrite outside the subset or one the fixed proof scripts do not follow is reported as a broken tie (no-failing-input-found); the harmless changes C15-h1 (code motion into helper functions + flag loop), h2 (single surrogate mask, explicit int range test), h3 stay quiet. error_pos_exact speaks about the cursor the code reports: for parser-level errors that is the cursor BEHIND the offending token (the code passes pos, not token.pos), which the theorem states as such. Trusted: Lean kernel + the three standard axioms; the hand translation of the remaining parts of Json.cpp into lean/Nstd/Json/Model.lean (cursor = suffix of the buffer, a read at the empty suffix = out of bounds; loops with fuel; parseArray/parseObject inlined into parseValue + loop functions; appendEscapedString modelled byte-at-a-time instead of strpbrk jumps; the dead `scanf failed` branches after four checked hex digits and the dead `token != '['`/`'{'` tests are not modelled; docs/json.md has the coverage table of Json.cpp) - validated by the correspondence run, not proved. The translator tools/gen_json.py reads the tables off the running code (op `tables` of the harness: toString of every one-byte string, parse of every backslash+letter); it assumes escaping is per byte and refuses observations it cannot interpret (= broken tie); its output is exercised by the correspondence run; what the round trip needs of the generated tables (escape texts invert through the tokenizer's switch, every control character/quote/backslash is in the escaped set, escape letters are plain bytes, \\u00 prefix) are the closed `decide` lemmas of LemmasTables.lean, counted as obligations. string_token_has_string_value shows the model's Val.strOf default is unreachable. libc as Lean definitions (assumptions): atoll (sign, digits, saturating), sscanf %x on four hex digits, printf %d/%lld, isdigit/isxdigit/isspace in the C locale, strpbrk. Doubles (atof, %f) are opaque: a number token with '.' becomes `d` and is never compared; the round trip excludes doubles (the tie observes only that toString of a finite double has the %f shape). The RFC grammar is over bytes: well-formedness of raw non-ASCII UTF-8 inside strings is not part of it (toString copies such bytes unchanged). interp uses the model's numVal for number tokens (explained by number_token_value); Rfc.lean/RfcSem.lean are hand-written specifications (trusted as the reading of RFC 8259). toString of uint/uint64/Array kinds is model+tie (printed like int64 / list), not covered by a theorem. Rfc.textNec is only a necessary condition (not a recogniser of the grammar); Stripped is shown sound (stripComments computes it), its totality (every text has an image) is not stated. parse into a non-empty result Variant: modelled (parseInto) and driven (parseinto); proved for lists and replaced values, the law for maps is model+tie. String/Variant/List/HashMap of libnstd are modelled as values (byte list, tree, insertion-ordered assoc list with replace-on-repeat); Variant::operator== is modelled for the value kinds of the property. The C++ recursion depth (stack) is not modelled: the theorems are about unbounded depth, the real code is run on 1000-deep documents. Bytes after the first NUL of a longer buffer cannot influence the result (parse_reads_only_cstr: parse buf = parse (cstr buf ++ [0])). No theorem is partial; the model mirrors the sources WITH fixes/json/01..04 applied (D21-D24).",
+        "text": "Third leg of round 7: translated_parser (Json::Private::parseValue with parseArray/parseObject executed in place, as written today, is the model's parseValue/arrLoop/objLoop for every budget and parser state; out-parameter Variant& = returned value, List::append = acc ++ [v], HashMap::append = mapAppend with the repeated-key rule, readToken() = St.next), translated_parse (translated tokenizer + translated parser = the model's parseRaw on every NUL-terminated buffer), translated_parse_total_safe and translated_roundtrip (parse_total / parse_no_oob / roundtrip restated over the code of today). parse into a Variant that already holds a value: ModelInto.parseInto, driven by the new op parseinto (harness, driver, generator, Python reference); parse_into_fresh, parse_into_array_appends, parse_into_object_appends (held map: the parsed members are HashMap::append-ed in text order, mergeMap). Second leg of round 7: translated_readToken (the WHOLE Json::Private::readToken of today - skipSpace executed in place, first-byte dispatch, String::compare for the literals, string loop, number block - is the model's readToken on every consistent position Pos buf line r for every budget >= |r|+2; nothing of the tokenizer is hand-translated any more), readStr_fuel_monotone (proved on the translated loop by a tactic that follows the generated tree), translated_syntaxError / translated_column (the backwards walk of syntaxError over the bytes in front of the cursor, written with a counter or with a second pointer, returns (pos.line, model column)), error_pos_exact (parse buf = err l c: there is a cursor p of the buffer with NUL-free text in front of it such that (l, c) is what the translated syntaxError computes for p and p is exactly one of two classes - ErrAt.tokenizer: the cursor where readToken started at a consistent position gives up; ErrAt.behindToken: a complete token that the grammar does not allow there was read, p is the cursor immediately behind it and l its line), tokenizer_error_cursor + string_error_cursor (the tokenizer gives up AT the first byte of a token that cannot start / a mismatching literal, inside a string literal AT the terminating NUL, AT the first non-hex byte of a \\u escape, or immediately BEHIND a high surrogate escape that is not followed by a low surrogate escape). Tie by translation (round 7): translated_stripComments / translated_strip_loops (the three loops of Json::stripComments as written today ARE the model's stripOuter/stripBlock/stripString, fuel for fuel, for every output-so-far and cursor), translated_string_loop (the string loop of readToken as written today - CR/CRLF/LF, escape switch, \\u + 4 hex digits, surrogate tests, second escape, pos -= 6, Unicode::append - IS the model's readStr for every budget, line, accumulator and cursor: same value, line count, cursor, failure position), translated_number_token (alphabet loop + isDouble + toInt64 + narrowing = numLoop then numVal), translated_skipSpace, readToken_via_translation (the model's readToken rewritten over the translated pieces; only the first-byte dispatch and the three literals stay hand-written). A change of one of these C++ bodies changes the generated definitions; if it computes something else the equality no longer checks (broken obligation, then the search for a failing input runs), anything outside the translated C++ subset is refused (broken tie). Kernel-checked theorems over ALL buffers / ALL value trees of the Lean model of Json.cpp: parse never runs out of its linear budget (parse_total) and never reads behind the end of a buffer that holds a NUL (parse_no_oob), for any size and nesting depth; every reported error is the (line, column) of an offset inside the text (error_pos_inside, error_pos_bounds); the result depends only on the bytes before the first NUL (parse_reads_only_cstr); for every tree of null/bool/int32/int64/NUL-free strings/lists/maps with distinct NUL-free keys, parse(toString v) succeeds with a tree equal to v under Variant::operator== (roundtrip; the only change is int64-that-fits-32-bits -> int); stripComments equals a four-mode byte-at-a-time reference on the C string of the buffer, keeps every CR/LF and only deletes bytes (strip_spec, strip_keeps_line_breaks, strip_sublist). RFC 8259: lean/Nstd/Json/Rfc.lean is a declarative grammar of the RFC over bytes (inductive predicates, imports nothing, not the parser model) with the syntax tree as attribute; toString_is_rfc8259: for every tree of the property the text of toString IS a JSON-text of that grammar; accepts_rfc: every JSON-text of the grammar whose tree has a meaning (RfcSem.interp: strings decoded per section 7 incl. surrogate pairs to the RFC 3629 UTF-8 specified for C18, objects via HashMap::append, arrays, literals) is parsed successfully to exactly that meaning, no bound on size/depth; the only texts of the grammar without a meaning are those with a high surrogate escape not followed by a low surrogate escape, which the code rejects (lone_high_surrogate_rejected). Numbers: number_token (which bytes form the token; double iff it contains '.'), number_token_value (the value of EVERY token without '.': optional minus, decimal value of the digits before the first non-digit, saturated at int64, stored as int iff it fits 32 bits), number_token_exp_ignored (1e5 is the int 1: deviation from the RFC meaning, witness in Props). unicode_escape_is_utf8 / surrogate_logic: the shifts/masks of the tokenizer and of Unicode::append are the D800..DBFF / DC00..DFFF ranges, the UTF-16 pair formula and RFC 3629 for all code points. Round trip a second time, through the RFC semantics: toString_rfc_meaning (interp (treeOf v) = some (norm v): a statement about the two specifications, the parser does not occur) composes with toString_is_rfc8259 and accepts_rfc into roundtrip_through_rfc, independently of the parser-model proof `roundtrip`. string_without_meaning_rejected / high_surrogate_then_non_low_rejected: on RFC strings the tokenizer succeeds exactly when decodeItems is defined. Superset in both directions: accepted_beyond_rfc proves for each relaxation (leading zeros, `-`, `1-2`, `1.2.3`, trailing commas in arrays and objects, a raw LF and an unknown escape in a string, VT/FF as white space, `1 2`, `[] ]`) that nstd accepts it AND that it is not a JSON-text of the grammar (rfc_necessary: a computable necessary condition of Rfc.Text proved by induction over the grammar, LemmasRfcNot.lean importing only the grammar); lone low surrogates and repeated names (first position/last value) are inside the grammar, witnesses given. stripComments: besides strip_spec, the declarative relation Stripped (plain bytes, string literals with `\\x` pairs verbatim, `//` to the kept CR/LF, `/* */` keeping only CR/LF, unterminated forms) is computed by stripComments for every text (strip_declarative); every RFC 8259 text is returned unchanged (strip_rfc_text_unchanged); strip_then_parse: if the text without its comments is a JSON-text with meaning v, parse(stripComments(t)) = v. The model is tied to the current Json.cpp on every run by executing identical op lines on both (all byte strings of length <=3 (thorough <=4, partly 5) over a 12..18-symbol alphabet for parse and strip, generated valid/lenient/erroneous documents, prefixes, mutations, token soup, type-directed value trees with quotes/backslashes/all control characters/UTF-8/non-BMP, toString of the uint/uint64/Array/double kinds, 1000-deep documents, watchdog; every parse op also runs Parser::parse(String), a long-lived reused Parser, both static Json::parse functions and compares result and Error text) and judged by oracles that do not go through the model; branch-hit counters of the tokenizer/parser constructs are in the evidence.",
+        "note": "Translated and proved equal to the model (not trusted): stripComments, the string block and the number block of readToken, skipSpace. Trusted there: the translator tools/gen_json_cxx.py itself (its reading of the C++ subset: const char* = suffix + static offset read through Cxx.rdS/rdR with the empty suffix = out of bounds, String locals and *(dest++) = x as byte lists, loops as fuel functions, counting loops unrolled, member functions of Json::Private inlined, a bool loop flag propagated as a constant; library calls mapped to model definitions: String::findOneOf = strpbrk, isDigit/isHexDigit/isSpace, append, clear, toInt64 = atoll, toDouble opaque, Unicode::append = utf8; ASSUMED: k.scanf(\"%x\", &w) on four checked hex digits returns 1 with their value, the failure branch is dropped) - its output is additionally exercised because the driver's model functions are proved equal to it. Since the second leg also translated: the whole readToken (String::compare = litMatch) and syntaxError (a cursor known by the bytes in front of it; `start` = where that list ends). Since the third leg also translated: parseValue/parseArray/parseObject (assumed there: the Variant handed in is fresh - the other case is ModelInto.parseInto, hand-written and tied by the op parseinto; readToken() is taken as St.next, justified by translated_readToken). Still hand-translated and only tied by the differential run: the three statements of Private::parse (glue), appendVariant/appendEscapedString (escape tables by execution), Private::parse, the API wrappers. A harmless rewrite outside the subset or one the fixed proof scripts do not follow is reported as a broken tie (no-failing-input-found); the harmless changes C15-h1 (code motion into helper functions + flag loop), h2 (single surrogate mask, explicit int range test), h3 stay quiet. error_pos_exact speaks about the cursor the code reports: for parser-level errors that is the cursor BEHIND the offending token (the code passes pos, not token.pos), which the theorem states as such. Trusted: Lean kernel + the three standard axioms; the hand translation of the remaining parts of Json.cpp into lean/Nstd/Json/Model.lean (cursor = suffix of the buffer, a read at the empty suffix = out of bounds; loops with fuel; parseArray/parseObject inlined into parseValue + loop functions; appendEscapedString modelled byte-at-a-time instead of strpbrk jumps; the dead `scanf failed` branches after four checked hex digits and the dead `token != '['`/`'{'` tests are not modelled; docs/json.md has the coverage table of Json.cpp) - validated by the correspondence run, not proved. The translator tools/gen_json.py reads the tables off the running code (op `tables` of the harness: toString of every one-byte string, parse of every backslash+letter); it assumes escaping is per byte and refuses observations it cannot interpret (= broken tie); its output is exercised by the correspondence run; what the round trip needs of the generated tables (escape texts invert through the tokenizer's switch, every control character/quote/backslash is in the escaped set, escape letters are plain bytes, \\u00 prefix) are the closed `decide` lemmas of LemmasTables.lean, counted as obligations. string_token_has_string_value shows the model's Val.strOf default is unreachable. libc as Lean definitions (assumptions): atoll (sign, digits, saturating), sscanf %x on four hex digits, printf %d/%lld, isdigit/isxdigit/isspace in the C locale, strpbrk. Doubles (atof, %f) are opaque: a number token with '.' becomes `d` and is never compared; the round trip excludes doubles (the tie observes only that toString of a finite double has the %f shape). The RFC grammar is over bytes: well-formedness of raw non-ASCII UTF-8 inside strings is not part of it (toString copies such bytes unchanged). interp uses the model's numVal for number tokens (explained by number_token_value); Rfc.lean/RfcSem.lean are hand-written specifications (trusted as the reading of RFC 8259). toString of uint/uint64/Array kinds is model+tie (printed like int64 / list), not covered by a theorem. Rfc.textNec is only a necessary condition (not a recogniser of the grammar); Stripped is shown sound (stripComments computes it), its totality (every text has an image) is not stated. parse into a non-empty result Variant: modelled (parseInto) and driven (parseinto); proved for lists, maps and replaced values. The translator assumes for unsigned subtraction that the minuend is not the smaller value (used only behind isHexDigit in a rewritten hex reader). Harmless C15-h4 (stripComments rebuilt from helpers that return cursors) leaves the translated subset and is reported as a broken tie without a failing input. String/Variant/List/HashMap of libnstd are modelled as values (byte list, tree, insertion-ordered assoc list with replace-on-repeat); Variant::operator== is modelled for the value kinds of the property. The C++ recursion depth (stack) is not modelled: the theorems are about unbounded depth, the real code is run on 1000-deep documents. Bytes after the first NUL of a longer buffer cannot influence the result (parse_reads_only_cstr: parse buf = parse (cstr buf ++ [0])). No theorem is partial; the model mirrors the sources WITH fixes/json/01..04 applied (D21-D24).",
         "design_ref": "DESIGN.md 3/C15",
     }
 }
